@@ -104,12 +104,18 @@ func GenPoolFor(r *Rng, nFaulty, nVariants, nDocs, faultyDocsIn10 int) *GenPool 
 		p.Variants = append(p.Variants, v.Render(NewRng(seed+1)))
 		bump(&probes.genVariants)
 	}
+	if r.Chance(1, 15) {
+		p.Schema = "\ufeff" + p.Schema // a byte order mark is legal at the start of a source
+	}
 	for i := 0; i < nDocs; i++ {
 		nf := 0
 		if r.Intn(10) < faultyDocsIn10 {
 			nf = r.Range(1, 3)
 		}
 		d, noted := GenDoc(r, s, nf)
+		if r.Chance(1, 20) {
+			d = "\ufeff" + d
+		}
 		p.Docs = append(p.Docs, d)
 		bump(&probes.genDocs)
 		if len(noted) > 0 {
